@@ -300,7 +300,7 @@ async def end_to_end(ctx: Ctx, trials: int) -> None:
         g = Gateway(None, input_file=io.TextIOWrapper(io.BytesIO(("\n".join(lines) + "\n").encode())),
                     config={"disable_discovery": True})
         try:
-            await g.start()
+            await gw.start(g)
         except Exception as err:  # noqa: BLE001
             ctx.dist["e2e-start-failed:" + type(err).__name__] += 1
             continue
@@ -447,7 +447,7 @@ async def config_updates(ctx: Ctx, trials: int) -> None:
         lines.append(f"{t.isoformat(timespec='microseconds')} 045  I --- 32:000004 --:------ 32:000004 1298 003 000000")
         g = Gateway(None, input_file=io.TextIOWrapper(io.BytesIO(("\n".join(lines) + "\n").encode())), config={"disable_discovery": True})
         try:
-            await g.start()
+            await gw.start(g)
             for _ in range(10):
                 await asyncio.sleep(0)
             ctx.case(("config-update", trial, z, gap, form), True, f"config-update:{form}:{'merged' if gap < 3 else 'separate'}")
@@ -660,7 +660,7 @@ async def repeated_readings(ctx: Ctx, trials: int) -> None:
         lines.append(f"{t.isoformat(timespec='microseconds')} 045  I --- 32:000004 --:------ 32:000004 1298 003 000000")
         g = Gateway(None, input_file=io.TextIOWrapper(io.BytesIO(("\n".join(lines) + "\n").encode())), config={"disable_discovery": True})
         try:
-            await g.start()
+            await gw.start(g)
         except Exception as err:  # noqa: BLE001
             ctx.dist["e2e-start-failed:" + type(err).__name__] += 1
             continue
